@@ -48,7 +48,7 @@ func shutdownScenario(t *rapid.T, pool []string) sim.Scenario {
 		op := pick(t, "faultop", []string{"recv", "recv", "send"})
 		f := sim.Fault{Op: op, At: rapid.IntRange(1, 6).Draw(t, "faultat"), Kind: "err"}
 		if op == "recv" {
-			f.Kind = pick(t, "faultkind", []string{"err", "data+eof", "data+err", "netclosed", "chanclosed"})
+			f.Kind = pick(t, "faultkind", []string{"err", "data+eof", "data+err", "netclosed", "chanclosed", "wrapeof"})
 		}
 		sc.Cfg.Faults = append(sc.Cfg.Faults, f)
 	}
